@@ -102,9 +102,24 @@ def catalogue():
     c["dict-typed-empty-dflt"] = ({"k": "Dict", "key": {"k": "Str"}, "val": {"k": "Int"}, "o": {"default": D()}}, [D(("k", 1))], [D(("k", "x"))])
     c["list-any-empty-dflt"] = ({"k": "List", "o": {"default": []}}, [[1]], ["x"])
     c["list-int-empty-dflt"] = ({"k": "List", "item": {"k": "Int"}, "o": {"default": []}}, [[1]], [["x"]])
+    # unusual but legal option values
+    c["int-fracbounds"] = ({"k": "Int", "o": {"min": 0.5, "max": 9.5, "default": 4}}, [1, "9"], [0, 10, "x"])
+    c["int-negfrac"] = ({"k": "Int", "o": {"min": -9.5, "max": -0.5}}, [-1, "-9"], [0, -10])
+    c["port-fracmin"] = ({"k": "Port", "o": {"min": 1024.5, "default": 8080}}, [1025, "2000"], [1024, 80])
+    c["str-case-spelled"] = ({"k": "Str", "o": {"transform_case": "LOWER", "transform_strip": True, "choices": ["ab", "cd"]}}, ["ab", " CD "], ["ef", 5])
+    c["loglevel-case-spelled"] = ({"k": "LogLevel", "o": {"transform_case": "Lower", "default": "info"}}, ["debug", " ERROR "], ["trace"])
+    c["str-req-min0"] = ({"k": "Str", "o": {"required": True, "min_len": 0, "transform_strip": True, "default": "v"}}, ["a", " b "], ["", "  ", None])
+    c["file-new-in-dir"] = ({"k": "File", "o": {"exists": False, "startdir": "@FW"}}, ["/nonexistent-dir-zq/abs", "fresh.log"], ["taken.log", "adir", 5])
+    c["file-in-dir"] = ({"k": "File", "o": {"exists": "file", "startdir": "@FW"}}, ["taken.log"], ["fresh.log", "adir"])
+    c["dir-in-dir"] = ({"k": "File", "o": {"exists": "dir", "startdir": "@FW"}}, ["adir"], ["fresh.log", "taken.log"])
     c["dict-any-dflt"] = ({"k": "Dict", "o": {"default": D(("d", 1))}}, [D(("k", 1))], ["x"])
     c["list-any-dflt"] = ({"k": "List", "o": {"default": [1, [2]]}}, [[3]], ["x"])
     return c
+
+
+def option_leaves():
+    return ["int-fracbounds", "int-negfrac", "port-fracmin", "str-case-spelled", "loglevel-case-spelled", "str-req-min0",
+            "file-new-in-dir", "file-in-dir", "dir-in-dir"]
 
 
 def quick_leaves():
@@ -152,6 +167,12 @@ def _shape(name, leaf):
         item = {"k": "Schema", "reject": ["c", rej], "fields": [["c", L], ["r", {"k": "Str", "o": {"required": True}}]]}
         ct = {"k": "CType", "name": "CTV", "reject": ["c", rej], "fields": [["c", L]]}
         return {"fields": [["items", {"k": "List", "item": item}], ["t", ct], ["ts", {"k": "List", "item": ct}], w]}
+    if name == "cfglist2-v":
+        # two lists per item type: a configuration held by one list can be offered to the other
+        base = _shape("cfglist-v", leaf)
+        f = dict(base["fields"])
+        base["fields"] = base["fields"][:-1] + [["items2", {"k": "List", "item": f["items"]["item"]}], ["ts2", {"k": "List", "item": f["ts"]["item"]}], w]
+        return base
     if name == "cfglist":
         item = {"k": "Schema", "fields": [["c", L], ["r", {"k": "Str", "o": {"required": True}}], ["inner", {"k": "Schema", "fields": [["e", L]]}]]}
         ct = {"k": "CType", "name": "CT", "fields": [["c", L]]}
@@ -580,6 +601,8 @@ class World:
             if not all(isinstance(V.dec(x), int) for x in s["items"]):
                 sch2 = cc.Schema(); sch2.y = cc.ListField(cc.StringField()); c = sch2(); c.y = [V.dec(x) for x in s["items"]]
             return c.y
+        if s["$"] == "item-of":
+            return chained(self.cfg, s["path"])[s["index"]]
         if s["$"] == "foreign-list-plus":
             base = self._resolve({"$": "foreign-list", "items": s["items"]})
             return base + [V.dec(x) for x in s["plus"]]      # the concatenation of a foreign proxy: still a proxy of that field
@@ -735,6 +758,17 @@ def ops_for(spec, leafname, tier="quick"):
             ops.append(["mut", key, "append", 5])
             ops.append(["mut", key, "pop"])
             ops.append(["reset", key])
+    # a configuration that sits in one list is offered to another list of the same item type
+    lists = [(key, f) for key, f in spec["fields"] if f["k"] == "List" and isinstance(f.get("item"), dict) and f["item"]["k"] in ("Schema", "CType")]
+    for ka, fa in lists:
+        for kb, fb in lists:
+            if ka != kb and fa["item"] == fb["item"]:
+                held = {"$": "item-of", "path": ka, "index": 0}
+                ops.append(["mut", kb, "append", held])
+                ops.append(["mut", kb, "setitem", 7, held])
+                ops.append(["mut", kb, "insert", 0, held])
+                ops.append(["set", kb, [held, D(("nosuchfield", 1))]])
+                ops.append(["setitem", kb, [held, 5]])
     if spec.get("dynamic"):
         ops.append(["set", "newfield", 5])
         ops.append(["setitem", "newfield", "s"])
